@@ -1,10 +1,81 @@
 /-
   C06 — Untrusted layer content cannot hang or crash the indexer.
   Property theorems only; helper lemmas live in Proofs/.
+
+  The models (Model/TarSeg.lean, ...) are tied to pkg/tarfs/parse.go, ... by the
+  differential run of `./check C06` (the real functions and the model answer
+  the same mutated inputs, including the number of ReadAt calls made).
 -/
-import ClairModel.Model.TarSeg
+import ClairModel.Proofs.TarSeg
 
 namespace ClairModel.Props.C06
 open ClairModel
+
+/-! ## tar segment finder (pkg/tarfs/parse.go) -/
+
+/-- `parseNumber` never yields a value outside int64, whatever the field bytes. -/
+theorem parseNumber_range (b : TarSeg.Bytes) (v : Int) (h : TarSeg.parseNumber b = some v) :
+    -(TarSeg.two63 : Int) ≤ v ∧ v < (TarSeg.two63 : Int) :=
+  TarSeg.parseNumber_range b v h
+
+/-- Only the base-256 form (high bit of the first byte) can produce a negative number. -/
+theorem parseNumber_text_nonneg (c0 : UInt8) (rest : TarSeg.Bytes) (v : Int)
+    (hb : (c0 &&& 0x80 != 0) = false) (h : TarSeg.parseNumber (c0 :: rest) = some v) : 0 ≤ v :=
+  TarSeg.parseNumber_text_nonneg c0 rest v hb h
+
+/-- Time: `findSegments` (a definition Lean accepts without fuel, i.e. it
+    terminates on every byte string) makes at most two reads per 512-byte block
+    of the input plus two. -/
+theorem findSegments_reads_linear (data : TarSeg.Bytes) :
+    (TarSeg.findSegments data).reads ≤ 2 * (data.length / 512) + 2 := by
+  have := TarSeg.scan_reads_le data 0 0 false
+  simpa [TarSeg.findSegments] using this
+
+/-- Memory: at most one segment per block of input. -/
+theorem segments_le_blocks (data : TarSeg.Bytes) (ss : List TarSeg.Segment)
+    (h : (TarSeg.findSegments data).out = .ok ss) : ss.length ≤ data.length / 512 :=
+  TarSeg.scan_segs_le data 0 0 false ss h
+
+/-- Every segment is block aligned, at least one block long, and ends less
+    than one block after the end of the input: no reader is ever created over a
+    region the archive does not have (only the padding of the last entry may be
+    missing). -/
+theorem segments_within_input (data : TarSeg.Bytes) (ss : List TarSeg.Segment)
+    (h : (TarSeg.findSegments data).out = .ok ss) :
+    ∀ s ∈ ss, s.start % 512 = 0 ∧ 512 ≤ s.size ∧ s.size % 512 = 0 ∧ s.start + s.size < data.length + 512 := by
+  intro s hs
+  have := TarSeg.scan_within data 0 0 false ss (Nat.le_refl _) h s hs
+  omega
+
+/-- Segments are reported in archive order and do not overlap. -/
+theorem segments_disjoint_sorted (data : TarSeg.Bytes) (ss : List TarSeg.Segment)
+    (h : (TarSeg.findSegments data).out = .ok ss) : TarSeg.Sorted ss :=
+  TarSeg.scan_sorted data 0 0 false ss (Nat.le_refl _) h
+
+/-- A ustar header block for a regular file whose size field is the base-256
+    encoding of −512. -/
+def negSizeHeader : TarSeg.Bytes :=
+  List.replicate 124 0 ++ [0xff, 0xff, 0xff, 0xff, 0xff, 0xff, 0xff, 0xff, 0xff, 0xff, 0xfe, 0x00] ++
+  List.replicate 20 0 ++ [48] ++ List.replicate 100 0 ++ TarSeg.magicPAX ++ TarSeg.version00 ++ List.replicate 247 0
+
+/-- Before the fix (no `sz < 0` check) one iteration on that block leaves the
+    block pointer where it was and appends a segment: the loop never ends and
+    allocates without bound.  (`fixed:` d60fc8cb) -/
+theorem findSegments_loops_counterexample (st : TarSeg.St) (hz : st.zeroes = false) :
+    TarSeg.iterUnguarded negSizeHeader st =
+      some { blk := st.blk, cur := st.blk, zeroes := false, nsegs := st.nsegs + 1 } := by
+  have hh : TarSeg.header false negSizeHeader = .next (-512) .data := by decide +kernel
+  have hzb : TarSeg.isZeroBlock negSizeHeader = false := by decide +kernel
+  have hn : TarSeg.nBlkOf (-512) = -1 := by decide
+  cases st
+  simp only at hz
+  subst hz
+  simp only [TarSeg.iterUnguarded, hzb, hh, hn]
+  simp
+  omega
+
+/-- The code as fixed rejects that block. -/
+theorem negative_size_rejected : TarSeg.header true negSizeHeader = .fail .negSize := by
+  decide +kernel
 
 end ClairModel.Props.C06
